@@ -171,10 +171,26 @@ func outErr(val interface{}, err error) V {
 	return vErr(append([]V{Bool(isNilValue(val))}, projErrTail(err)...)...)
 }
 
+// curInput is the buffer handed to the request parser that is running (nil otherwise): a decoded
+// request must not alias it (the request parsers copy their payloads), so the buffer is overwritten
+// before the decoded value is looked at
+var curInput []byte
+
+func scribble() {
+	if curInput != nil {
+		b := curInput[:cap(curInput)]
+		for i := range b {
+			b[i] ^= 0xA5
+		}
+		curInput = nil
+	}
+}
+
 func outReq(r packet.Request, err error) V {
 	if err != nil {
 		return outErr(r, err)
 	}
+	scribble()
 	tid, p := projReq(r)
 	return vOk(I(tid), p, B(r.Bytes()))
 }
@@ -192,6 +208,10 @@ func outResp(r packet.Response, err error) V {
 
 // parseAny runs the parse entry point with the given code (see coq/DispPacket.v)
 func parseAny(which int, d []byte) V {
+	curInput = nil
+	if which < 300 { // request parsers and request dispatchers
+		curInput = d
+	}
 	return guard(func() V {
 		switch which {
 		case 1:
@@ -508,4 +528,13 @@ func withCap(vis, spare []byte) []byte {
 	copy(buf, vis)
 	copy(buf[len(vis):], spare)
 	return buf[:len(vis):len(buf)]
+}
+
+// sentinelState: the package-level sentinel errors are shared by all calls; no parser may write
+// into them (a result must depend on its input only)
+func sentinelState() V {
+	p := func(e *packet.ErrorParseTCP) V {
+		return L(I(int(e.Packet.TransactionID)), I(int(e.Packet.UnitID)), I(int(e.Packet.Function)), I(int(e.Packet.Code)), B(e.Bytes()))
+	}
+	return L(p(packet.ErrTCPDataTooShort), p(packet.ErrIsNotTCPPacket))
 }
